@@ -34,6 +34,11 @@ func wdNote(op string, arg int, data []byte, sx *SX) {
 }
 func at(cs string) { wdLast.Store(&wdInput{text: cs}) }
 
+// atCtx records what led up to the next call (the history so far); the hang report shows it in front of the input
+var wdCtx atomic.Value
+
+func atCtx(s string) { wdCtx.Store(s) }
+
 func (w *wdInput) String() string {
 	if w == nil {
 		return "(unlabelled)"
@@ -79,7 +84,7 @@ func startWatchdog(ctx *Ctx, out string, limit time.Duration) {
 			w, _ := wdLast.Load().(*wdInput)
 			ctx.R.Add(Finding{Kind: "instance",
 				What:     fmt.Sprintf("an implementation call does not return (no progress for %v: the work is not bounded by the input length)", limit),
-				Case:     w.String(),
+				Case:     wdCase(w),
 				Expected: "a value or an error after work bounded by the input length",
 				Observed: "still running; goroutines:\n" + st})
 			ctx.R.Notes = append(ctx.R.Notes, "the runner was ended by its watchdog: the remaining cases were not evaluated")
@@ -99,3 +104,10 @@ var soloOff int32
 
 func solo() bool      { return atomic.LoadInt32(&soloOff) == 0 }
 func setSolo(on bool) { v := int32(1); if on { v = 0 }; atomic.StoreInt32(&soloOff, v) }
+
+func wdCase(w *wdInput) string {
+	if ctx, _ := wdCtx.Load().(string); ctx != "" {
+		return "(after " + ctx + " the call " + w.String() + ")"
+	}
+	return w.String()
+}
